@@ -62,10 +62,11 @@ structure Sub where
 structure State where
   pools : AMap Nat Cfg             -- pool records, read from the store on every allocation
   isps  : AMap Nat (Option Nat)    -- ISP record ↦ its first IPv4 pool (IPv4Pools[0]), if any
-  subs  : AMap Nat Sub
+  subs  : AMap Nat Sub             -- the client's CACHE of subscriber records (what GetSubscriber answers)
+  store : AMap Nat Sub             -- the subscriber records in the store
   deriving Repr
 
-def init : State := { pools := [], isps := [], subs := [] }
+def init : State := { pools := [], isps := [], subs := [], store := [] }
 
 inductive Obs where
   | okAddr (a : Nat)
@@ -75,7 +76,13 @@ inductive Obs where
   | nopoolrec       -- the pool record does not exist
   | nohosts         -- "pool has no usable addresses"
   | none
+  | error           -- the store refused the write
   deriving Repr, DecidableEq
+
+/-- a subscriber record is written to the store and (by the watch, or directly after the write since fix
+    08ca96f) reaches the cache -/
+def save (s : State) (k : Nat) (sub : Sub) : State :=
+  { s with subs := AMap.insert s.subs k sub, store := AMap.insert s.store k sub }
 
 /-- AllocateIPForSubscriber: a stored address is returned as it is; otherwise the address is computed
     from the pool record AS IT IS NOW (the subscriber's own pool, else the first pool of its ISP) and
@@ -100,7 +107,7 @@ def alloc (s : State) (k : Nat) : State × Obs :=
         | some c =>
           match addrOfHash c sub.hash with
           | Option.none => (s, .nohosts)
-          | some a => ({ s with subs := AMap.insert s.subs k { sub with addr := some a, pool := some p } }, .okAddr a)
+          | some a => (save s k { sub with addr := some a, pool := some p }, .okAddr a)
 
 /-- ReleaseSubscriberIP -/
 def release (s : State) (k : Nat) : State × Obs :=
@@ -109,7 +116,42 @@ def release (s : State) (k : Nat) : State × Obs :=
   | some sub =>
     match sub.addr with
     | Option.none => (s, .ok)
-    | some _ => ({ s with subs := AMap.insert s.subs k { sub with addr := Option.none } }, .ok)
+    | some _ => (save s k { sub with addr := Option.none }, .ok)
+
+/-- AllocateIPForSubscriber while the store refuses subscriber writes: every answer that needs no write is as
+    usual; a newly computed address is NOT handed out and (the client edits a copy of the cached record, since
+    fix 08ca96f) neither cache nor store changes -/
+def allocF (s : State) (k : Nat) : State × Obs :=
+  match s.subs.lookup k with
+  | Option.none => (s, .nosub)
+  | some sub =>
+    match sub.addr with
+    | some a => (s, .okAddr a)
+    | Option.none =>
+      match (alloc s k).2 with
+      | .okAddr _ => (s, .error)
+      | o => (s, o)
+
+/-- ReleaseSubscriberIP while the store refuses subscriber writes -/
+def releaseF (s : State) (k : Nat) : State × Obs :=
+  match s.subs.lookup k with
+  | Option.none => (s, .nosub)
+  | some sub =>
+    match sub.addr with
+    | Option.none => (s, .ok)
+    | some _ => (s, .error)
+
+/-- the same two calls BEFORE fix 08ca96f: the cached record itself was edited first, so a refused write left
+    the change in the cache -/
+def allocFUnfixed (s : State) (k : Nat) : State × Obs :=
+  match (allocF s k).2 with
+  | .error => ({ s with subs := (alloc s k).1.subs }, .error)
+  | o => (s, o)
+
+def releaseFUnfixed (s : State) (k : Nat) : State × Obs :=
+  match (releaseF s k).2 with
+  | .error => ({ s with subs := (release s k).1.subs }, .error)
+  | o => (s, o)
 
 /-- LookupSubscriberIP -/
 def lookup (s : State) (k : Nat) : Obs :=
@@ -126,15 +168,19 @@ inductive Op where
   | alloc (k : Nat)
   | release (k : Nat)
   | lookup (k : Nat)
+  | allocF (k : Nat)                                      -- … while the store refuses subscriber writes
+  | releaseF (k : Nat)
   deriving Repr, DecidableEq
 
 def step (s : State) : Op → State × Obs
   | .pool p c => ({ s with pools := AMap.insert s.pools p c }, .ok)
   | .isp i f => ({ s with isps := AMap.insert s.isps i f }, .ok)
-  | .sub k p i h => ({ s with subs := AMap.insert s.subs k { pool := p, isp := i, addr := Option.none, hash := h } }, .ok)
+  | .sub k p i h => (save s k { pool := p, isp := i, addr := Option.none, hash := h }, .ok)
   | .alloc k => alloc s k
   | .release k => release s k
   | .lookup k => (s, lookup s k)
+  | .allocF k => allocF s k
+  | .releaseF k => releaseF s k
 
 def run (s : State) (ops : List Op) : State := ops.foldl (fun st op => (step st op).1) s
 
